@@ -29,14 +29,16 @@ RULE = ('random: every sequential catalogue block x legal configuration x H hist
         'configuration once more with each output wired to a plain register and to one more sequential catalogue block, each '
         'instantiated before and after the block under test; the followers are judged as the composition of the two reference '
         'machines (stepping from the pre-edge values of their input nets); non-trivial when the block and a follower changed '
-        'state >= 3 times')
+        'state >= 3 times.  size: every block with a size parameter (stages, depth, address width, modulus, divide ratio, sequence '
+        'length) at sizes around powers of two and beyond 32 (up to 100/200) with all optional-port combinations, histories scaled '
+        'to the size: fill >= size, stall with reset pulses while disabled, drain >= size, random duties, reset storm, drain')
 SHARDS = {'quick': 1, 'thorough': 16}
 TIMEOUT = {'quick': 600, 'thorough': 3000}
 MIN_NONTRIVIAL = {'quick': 300, 'thorough': 3000}
 
 PARAMS = {
-    'quick': dict(compose_hist=2, compose_cycles=200, hist=8, cycles=600, bfs_states=4096, bfs_vectors=1024, seconds=420),
-    'thorough': dict(compose_hist=4, compose_cycles=1000, hist=10, cycles=4000, bfs_states=4096, bfs_vectors=4096, seconds=2400),
+    'quick': dict(size_hist=2, size_reps=1, compose_hist=2, compose_cycles=200, hist=8, cycles=600, bfs_states=4096, bfs_vectors=1024, seconds=420),
+    'thorough': dict(size_hist=4, size_reps=2, compose_hist=4, compose_cycles=1000, hist=10, cycles=4000, bfs_states=4096, bfs_vectors=4096, seconds=2400),
 }
 DUTIES = (0.05, 0.5, 0.95)
 
@@ -222,7 +224,7 @@ def gen_history(entry, cfg, rnd, n):
 
 class PB:
     """per-block counters, kept as flat {block: n} dicts in run.extra so that shard results add up key-wise"""
-    METRICS = ('configs', 'histories', 'edges', 'nontrivial', 'raised', 'bfs_configs', 'bfs_states', 'bfs_transitions', 'compositions')
+    METRICS = ('size_configs', 'size_edges', 'size_nontrivial', 'configs', 'histories', 'edges', 'nontrivial', 'raised', 'bfs_configs', 'bfs_states', 'bfs_transitions', 'compositions')
 
     def __init__(self, run, name):
         self.run, self.name = run, name
@@ -254,6 +256,88 @@ def random_job(run, entry, cfg, rnd, p):
             pb['raised'] += 1
             break
         else:
+            break
+
+
+# --------------------------------------------------------------------------- size-parameter families
+
+def gen_size_history(entry, cfg, size, rnd, reps):
+    """history scaled to the size parameter: fill (>= size enabled cycles without reset), stall (everything disabled, reset-like
+    controls pulsing: a reset while disabled), drain (>= size enabled cycles), random duties, reset storm while enabled, drain"""
+    pi, _ = entry.ports(cfg)
+    ctl = [k for k in entry.controls(cfg) if pi[k] == 1]
+    rst = [k for k in ctl if k in seqcat.RESET_LIKE]
+    ena = [k for k in ctl if k not in rst]
+    hot = {k: [rnd.getrandbits(w) | 1 for _ in range(3)] for k, w in pi.items()}
+    n1 = size + 2
+    phases = []
+    for _ in range(reps):
+        phases += [('fill', n1 + rnd.randint(0, size // 2), 0.0, rnd.choice((0.9, 1.0))),
+                   ('stall', rnd.randint(2, 8), rnd.choice((0.3, 1.0)), 0.0),
+                   ('drain', n1 + rnd.randint(0, 3), 0.0, 1.0),
+                   ('random', size // 2 + rnd.randint(8, 30), None, None),
+                   ('storm', rnd.randint(3, 12), rnd.choice((0.1, 0.5)), 0.95),
+                   ('drain', n1 + rnd.randint(0, 3), 0.0, rnd.choice((0.5, 1.0)))]
+    hist, marks = [], []
+    prev = {k: 0 for k in pi}
+    for name, n, dr, de in phases:
+        duty = {k: (rnd.choice(DUTIES) if dr is None else dr) for k in rst}
+        duty.update({k: (rnd.choice(DUTIES) if de is None else de) for k in ena})
+        if name == 'stall' and rst and n > 3:
+            pulse = rnd.randrange(1, n - 1)         # at least one reset pulse strictly inside the disabled stretch
+        else:
+            pulse = None
+        for t in range(n):
+            v = {}
+            for k, w in pi.items():
+                if k in duty:
+                    v[k] = int(rnd.random() < duty[k])
+                    if pulse is not None and k in rst:
+                        v[k] = int(t == pulse) if dr < 1.0 else int(0 < t < n - 1)
+                else:
+                    r = rnd.random()
+                    if r < 0.1:
+                        v[k] = prev[k]
+                    elif r < 0.3:
+                        v[k] = rnd.choice(hot[k])
+                    elif r < 0.4:
+                        v[k] = rnd.choice((0, 1, (1 << w) - 1, 1 << (w - 1)))
+                    else:
+                        v[k] = rnd.getrandbits(w)
+            if entry.domain is not None:
+                v = entry.domain(cfg, v)
+            hist.append(v)
+            prev = v
+    rwd = sum(1 for v in hist if rst and ena and any(v[k] for k in rst) and not any(v[k] for k in ena))
+    return hist, rwd
+
+
+def size_job(run, entry, cfg, size, rnd, p):
+    pb = PB(run, entry.name)
+    pb['size_configs'] += 1
+    mx = run.extra.setdefault('size_family_largest_size_by_block', {})
+    mx[entry.name] = max(mx.get(entry.name, 0), size)
+    for h in range(p['size_hist']):
+        hist, rwd = gen_size_history(entry, cfg, size, rnd, p['size_reps'])
+        e0 = run.evaluations
+        status, info = lockstep(run, entry, cfg, hist, 'size')
+        pb['size_edges'] += run.evaluations - e0
+        run.count('size_family_histories')
+        run.count('size_family_reset_while_disabled_cycles', rwd)
+        if rwd:
+            run.count('size_family_histories_with_reset_while_disabled')
+        if size > 32:
+            run.count('size_family_histories_size_above_32')
+        if status == 'ok':
+            if info['nontrivial']:
+                pb['size_nontrivial'] += 1
+                run.nt('z:' + stable_hash([entry.name, cfg, hist]))
+            if run.counters['size_family_histories'] % 23 == 1:
+                run.sample(dict(mode='size', block=entry.name, cfg=cfg if len(repr(cfg)) < 120 else repr(cfg)[:120], size=size, cycles=len(hist),
+                                reset_while_disabled_cycles=rwd, state_changes=info['changes']))
+        else:
+            if status == 'raised':
+                pb['raised'] += 1
             break
 
 
@@ -585,6 +669,8 @@ def run_check(run, tier, seed, shard):
         for cfg in e.configs(tier):
             if max(list(e.ports(cfg)[1].values())) <= 64:
                 jobs.append(('compose', e, cfg))
+    for e, cfg, size in seqcat.size_family(tier):
+        jobs.append(('size', e, (cfg, size)))
     jobs = shard_slice(jobs, shard)
     for kind, e, cfg in jobs:
         if run.too_many:
@@ -594,6 +680,8 @@ def run_check(run, tier, seed, shard):
             continue
         if kind == 'random':
             random_job(run, e, cfg, rng(seed, 'C09', e.name, cfg), p)
+        elif kind == 'size':
+            size_job(run, e, cfg[0], cfg[1], rng(seed, 'C09', 'size', e.name, cfg[0]), p)
         elif kind == 'compose':
             compose_job(run, e, cfg, rng(seed, 'C09', 'compose', e.name, cfg), p)
         else:
@@ -613,6 +701,10 @@ def post_merge(run, tier, seed):
     silent = [e.name for e in seqcat.ENTRIES if g('edges', e.name) + g('bfs_transitions', e.name) + g('raised', e.name) == 0]
     if silent and not run.violations:
         run.inconclusive.append('blocks never evaluated: %s' % silent)
+    if not run.violations:
+        for k in ('size_family_histories_size_above_32', 'size_family_histories_with_reset_while_disabled'):
+            if run.counters.get(k, 0) < 10:
+                run.inconclusive.append('size-parameter families hardly exercised: %s = %d' % (k, run.counters.get(k, 0)))
     if run.counters.get('bfs_configs_exhausted', 0) == 0 and not run.violations:
         run.inconclusive.append('no bounded exhaustive walk completed')
 
